@@ -19,6 +19,12 @@ CLAIMS = {
     "C02": ("TLA+ spec: evaluation as exact substitution of the supplied values (ESubst) over the broadcast argument shape; TLC trace validation over positional/keyword/None bindings and carriers",
             "Every call p(*args, **kwargs) / numpoly.call is judged by TLC: result shape poly.shape + broadcast(argument shapes), every entry the exact value of the substituted polynomial (big-integer arithmetic in the spec), a plain array for full numeric bindings, TypeError for unknown or doubly supplied names; arguments are Python ints (negative, > 2**16), bools, floats, complex, numpy scalars of every width, lists and arrays up to (2,1,3), and polynomials incl. swaps.",
             "DESIGN.md section 6 C02"),
+    "C03": ("TLA+ spec: WellFormed on the raw observation of every returned object (global clause), Clean exactly as documented on attribute triples, the three rejection rules, rebuilding from attributes / raw view / dictionary; TLC trace validation of the whole operation catalogue",
+            "WellFormed (distinct exponent rows, one coefficient array per row of the array's shape and dtype, distinct names matching the row width, storage keys and raw-view field names decoding to the rows, no out-of-range exponent) is evaluated by TLC on every value any driver of any property produces; attribute triples with zero terms, unused names, unsorted and duplicate rows, duplicate names and length mismatches go through polynomial_from_attributes / ndpoly.from_attributes / clean_attributes under all retain-flag choices and TLC demands exactly the documented rows, names and coefficients or PolynomialConstructionError; rebuilding from (exponents, coefficients, names), raw view + names (also for non-contiguous views) and todict() must reproduce shape, dtype, names and denotation.",
+            "DESIGN.md section 6 C03"),
+    "C04": ("TLA+ spec: representation-level postconditions of the four alignment functions, idempotence; TLC trace validation",
+            "Tuples of 1-4 polynomial-likes (polynomials of int/float/complex dtype, numbers, lists, arrays) with broadcastable shapes and arbitrary name/term sets are aligned with each of the four functions; TLC checks outputs in argument order, denotation equal to the (broadcast) input, common shape, names equal to the sorted union, identical rows and keys, and that re-aligning the outputs returns identical representations; the arguments' digests are compared before/after by the global frame clause.",
+            "DESIGN.md section 6 C04"),
     "C06": ("TLA+ spec: formal partial derivative EDeriv on exact polynomials, gradient/hessian layouts; TLC trace validation under every retain_*/sort_* setting",
             "derivative with name / index / indeterminate designations and several variables, gradient and hessian are executed under random settings of the retain and sort options (set in the real process, tracked by the option machine); TLC recomputes the formal partial derivatives of every element and the (D,)+shape / (D,D)+shape layouts.",
             "DESIGN.md section 6 C06"),
@@ -37,6 +43,12 @@ CLAIMS = {
     "C19": ("TLA+ spec of leading monomial / coefficient under a monomial order, decomposition, set_dimensions, the sort-proxy relation; TLC trace validation",
             "lead_exponent/lead_coefficient (all flag choices), isconstant, tonumpy (error for non-constants), todict, decompose (slices sum to the input, one monomial per slice), set_dimensions 1..5, sortable_proxy (a permutation respecting leading exponent then leading coefficient) and argmax/argmin/amax/amin without axis are executed on arrays with zero elements, equal leading terms, negative leading coefficients and many same-degree terms; TLC recomputes every answer from the exact polynomial.",
             "DESIGN.md section 6 C19"),
+    "C12": ("TLA+ model of numpy's dtype promotion and casts (bound to numpy.result_type / astype on every run), exact-value casts on polynomials; poisoning numpy allocator; TLC trace validation",
+            "All 14 dtypes and random ordered pairs: construction from data of a dtype, dtype= requests in polynomial / aspolynomial / polynomial_from_attributes / variable / symbols, astype, +,-,* between dtypes with and without broadcasting, shape functions and indexing; TLC demands numpy's promoted dtype (from the TLA+ promotion rules, themselves checked against numpy.result_type in the same run) and the exact values cast like numpy casts. Every worker process runs with a numpy allocator that fills fresh buffers with 0xA5, and the no-poison clause is evaluated on every result of every driver of every property, including results whose terms all cancel.",
+            "DESIGN.md section 6 C12"),
+    "C17": ("TLA+ frame condition as a global clause on every event (digests of every live register before/after every call, also when it raises); explicit targets (copyto with masks) specified; TLC trace validation of the whole catalogue",
+            "Every call of every driver is bracketed by digests (shape, dtype, names, keys, raw bytes) of every live register; TLC requires all of them unchanged except the declared targets of copyto, whose new value it recomputes. A dedicated driver calls ~50 public callables (incl. ones that raise, unsupported numpy functions, division, comparison, pickling, printing, properties) on operands that were aligned beforehand so that internal aliasing is possible.",
+            "DESIGN.md section 6 C17"),
     "C14": ("TLA+ state machine of the option record and the global_options stack; TLC exhaustive bounded model with action properties; every edge of the dumped graph replayed on the real library; TLC trace validation of random histories",
             "The option machine is model-checked exhaustively (bounded depth and length, history hidden by a VIEW) for restore-on-every-exit, bad-key-changes-nothing, only-given-keys-change; every edge of the reachable quotient graph is replayed into the real set_options/global_options/get_options (exits by exception included) with get_options() compared to the model after every step; random histories over all twelve real keys are validated by the same specification.",
             "DESIGN.md section 6 C14"),
